@@ -3,6 +3,7 @@
 # the quick checks of all 19 claimed properties on it (in parallel); prints one line per patch:
 #   <id> reported_by: <props | NONE>
 # refactors must all say NONE; seeded must all be reported (except the documented misses).
+# PROPS="C09 C18" restricts the checks that are run (after a change to the rules of a few properties).
 cd "$(dirname "$0")/.." || exit 2
 kind=${1:-refactors}; jobs=${2:-8}
 export GOFLAGS=-mod=mod GOPROXY=off GOSUMDB=off GOTOOLCHAIN=local
@@ -12,7 +13,7 @@ one() {
   git -C /repo archive HEAD | tar -x -C $t
   if ! (cd $t && git apply --whitespace=nowarn $d/patch.diff 2>/dev/null); then echo "$id DOES-NOT-APPLY"; rm -rf $t; return; fi
   hit=""
-  for p in C01 C02 C03 C04 C05 C06 C07 C08 C09 C10 C11 C12 C13 C14 C15 C16 C17 C18 C19; do
+  for p in ${PROPS:-C01 C02 C03 C04 C05 C06 C07 C08 C09 C10 C11 C12 C13 C14 C15 C16 C17 C18 C19}; do
     out=$(/verif/bin/ecalcheck -prop $p -tier quick -repo $t -verif /verif -no-evidence 2>&1)
     if echo "$out" | grep -q "VIOLATION property="; then
       rules=$(echo "$out" | grep -oE "^$p (R[A-Za-z0-9′-]+|UNDECIDED)" | awk '{print $2}' | sort -u | paste -sd,)
@@ -22,5 +23,5 @@ one() {
   rm -rf $t
   echo "$id reported_by:${hit:- NONE}"
 }
-export -f one
+export -f one; export PROPS
 ls -d /verif/$kind/C*-* | xargs -P $jobs -I{} bash -c 'one {}' | sort
